@@ -11,8 +11,9 @@ page of the page set, or the pool page `fresh` handed out).  The kernel-checked 
 `set_node` of before the repair the mirror produces a page whose diff omits a slot that changed.
 
 Partial: same scope as `T2_walker_root_partial` (no elided sub-trie entered, no parent page); only the direction the WAL
-needs — that every named slot was in fact (re)written is not stated; reconstructed pages are not covered (their diff is the
-join with the reconstruction diff, `StackPage.totalDiff`, mirrored and compared by the `walker` differential).
+needs — that every named slot was in fact (re)written is not stated; reconstructed and promoted pages: see
+`Props/C16_WalkRecon.lean` (`T16_reconstruction_diff_names_changes`, `T16_promoted_page_diff`: the diff handed out is the join with
+the reconstruction diff, `StackPage.totalDiff`; kernel-checked counterexample of the seeded change that drops it).
 -/
 namespace Nomt.C16
 open Nomt Nomt.Walker Nomt.TriePos
